@@ -33,11 +33,13 @@
 // # Literal metadata
 //
 // Every literal the generator writes is recorded with the exact spelling, its byte offset in Text, the
-// syntactic position class (Slot: select-list, where, join-on, in-list, between, like, func-arg, values,
-// set, on-dup, limit, offset, having, group-by, order-by, case, returning; prefixed "sub/" inside a
-// sub-select and "union/" inside a union arm or the union's own order/limit), and Value = the bytes the
+// syntactic position (Slot: a path of clause names from the outside in, e.g. "where", "select-list/func-arg",
+// "from/join-on", "values", "set", "on-dup", "limit", "offset", "having", "group-by", "order-by", "where/case",
+// "returning/func-arg", "update-from/sub/select-list", "insert-select/where"; "sub" marks a sub-select, "union-arm"
+// a member of a union, "union" the union's own ORDER BY / LIMIT, e.g. "union/limit"), and Value = the bytes the
 // real DBMS would read (MySQL: backslash escapes per the manual, \% and \_ keep the backslash; PostgreSQL
 // '..' strings take backslashes literally (standard_conforming_strings=on), E'..' strings decode escapes).
-// Quoted things that are NOT literals (aliases such as AS 'x', quoted identifiers, charset names, type
-// lengths, GROUP_CONCAT separators) are never recorded as literals and never receive LiteralSource values.
+// Quoted things that are NOT literal values (aliases such as AS 'x', quoted identifiers, charset names, type
+// lengths) are never recorded as literals and never receive LiteralSource values. The SEPARATOR string of
+// GROUP_CONCAT is a literal (slot ".../func-arg/separator").
 package sqlgen
